@@ -1,16 +1,16 @@
 //go:build verif
 
 //verif:dir p2p/net/swarm
+//verif:also C12
 //verif:hook p2p/net/swarm Swarm.addrsForDial
 //verif:hook p2p/net/swarm Swarm.dialNextAddr
 //verif:hook p2p/net/swarm Swarm.addConn
 //verif:hook p2p/net/swarm DialBackoff.AddBackoff
 //verif:shard VerifC05fWorkerLoop 9
-//verif:obligation C05.f the dial worker's loop() as an event machine (real loop in its own goroutine, real dial queue, timer protocol and dispatchError): for 2 dial requests with symbolic address sets over 2 addresses, symbolic ranking delay of the second address, every arrival pattern of the second request (before any result, between results, after all results), every completion order and outcome (success / failure) of the dials and refusals without a dial (back-off): every request receives exactly one response; an address is handed to dialNextAddr at most once while the worker lives (a back-off refusal is forgotten on purpose); a request is answered with a connection only if one of its addresses succeeded, and with an error only when every one of its addresses has failed or been refused; a success answers every pending request interested in that address; delayed addresses are dialed when the timer fires or when nothing is in flight; the loop returns when the request channel is closed
+//verif:obligation C05.f the dial worker's loop() as an event machine (real loop in its own goroutine, real dial queue, timer protocol and dispatchError): for 2 dial requests (the second plain, demanding a direct connection, or a hole-punch attempt) with symbolic address sets over 2 addresses, a relayed connection to the peer appearing never / before / after the second request, symbolic ranking delay of the second address, every arrival pattern of the second request (before any result, between results, after all results), every completion order and outcome (success / failure) of the dials and refusals without a dial (back-off): every request receives exactly one response; an address is handed to dialNextAddr at most once while the worker lives (a back-off refusal is forgotten on purpose); a request is answered with a connection only if one of its addresses succeeded or an acceptable connection appeared, a request demanding a direct connection is never answered with the relayed one, and with an error only when every one of its addresses has failed or been refused; a success answers every pending request interested in that address; delayed addresses are dialed when the timer fires or when nothing is in flight; the loop returns when the request channel is closed
 //verif:bound 2 requests, 2 addresses, <= 2 dials in flight, ranking delays {0, 250 ms}; the environment (request arrival, results, clock) is driven in every order permitted by the bound; cooperative schedule
 //verif:stub addrsForDial, dialNextAddr (ghost log + symbolic back-off refusal), addConn, DialBackoff.AddBackoff hooked; clock / instant timer harness stubs; addresses are atoms
-//verif:outside handshake-progress updates (TCP upgrade wait), simultaneous-connect re-prioritisation, more than 2 addresses / requests, cancellation of a request's context while its dials are pending
-//verif:nowitness
+//verif:outside handshake-progress updates (TCP upgrade wait), more than 2 addresses / requests, cancellation of a request's context while its dials are pending
 package swarm
 
 import (
@@ -138,10 +138,31 @@ func VerifC05fWorkerLoop() {
 		}
 	}
 	var resch [2]chan dialResponse
+	kind := [2]int{0, vCase(3)} // the second request: plain, demanding a direct connection, or a hole-punch (simultaneous connect) attempt
+	relayed := &Conn{conn: &vC05wtc{proxy: true}, swarm: s}
+	relayed.streams.m = map[*Stream]struct{}{}
+	relayLands := vCase(3) // a relayed connection to the peer appears: never / before the second request / after it
+	land := func() {
+		s.conns.m["peerA"] = append(s.conns.m["peerA"], relayed)
+		vCover("relayed-connection-landed")
+	}
 	send := func(r int) {
+		if r == 1 && relayLands == 1 {
+			land()
+		}
 		resch[r] = make(chan dialResponse, 4)
-		reqch <- dialRequest{ctx: context.WithValue(context.Background(), vC05reqCtxKey{}, r), resch: resch[r]}
+		ctx := context.WithValue(context.Background(), vC05reqCtxKey{}, r)
+		switch kind[r] {
+		case 1:
+			ctx = network.WithForceDirectDial(ctx, "verif")
+		case 2:
+			ctx = network.WithSimultaneousConnect(ctx, true, "verif")
+		}
+		reqch <- dialRequest{ctx: ctx, resch: resch[r]}
 		settle()
+		if r == 1 && relayLands == 2 {
+			land()
+		}
 	}
 	anyInFlight := func() bool { return inFlight[0] || inFlight[1] }
 	deliverOne := func() {
@@ -221,7 +242,11 @@ func VerifC05fWorkerLoop() {
 		}
 		if resp.err == nil {
 			vCover("request-connected")
-			vAssert(resp.conn != nil && anyOK, "a request gets a connection only if one of its addresses succeeded")
+			vAssert(resp.conn != nil && (anyOK || resp.conn == relayed), "a request gets a connection only if one of its addresses succeeded or an acceptable connection appeared meanwhile")
+			if kind[r] == 1 {
+				vCover("direct-demanded")
+				vAssert(resp.conn != relayed, "a request that demands a direct connection is never answered with a relayed one")
+			}
 		} else {
 			vCover("request-failed")
 			vAssert(allDone, "a request fails only when every one of its addresses has failed or been refused")
@@ -232,6 +257,21 @@ func VerifC05fWorkerLoop() {
 	}
 }
 
-type vC05wtc struct{ transport.CapableConn }
+type vC05wtpt struct {
+	transport.Transport
+	proxy bool
+}
 
-func (*vC05wtc) Close() error { return nil }
+func (t *vC05wtpt) Proxy() bool { return t.proxy }
+
+type vC05wtc struct {
+	transport.CapableConn
+	proxy bool
+}
+
+func (*vC05wtc) Close() error                     { return nil }
+func (*vC05wtc) IsClosed() bool                   { return false }
+func (c *vC05wtc) Transport() transport.Transport { return &vC05wtpt{proxy: c.proxy} }
+func (c *vC05wtc) Stat() network.ConnStats {
+	return network.ConnStats{Stats: network.Stats{Limited: c.proxy}}
+}
